@@ -4,7 +4,7 @@ package aggregator
 
 /*@
 func (*GroupAggregator).shouldAllowNullValues
-  props C03
+  props C03 C01 C04 C07 C09
   ensures explicit-null-reaches-first-and-last-value-only: result <==> (aggType == "first_value" || aggType == "last_value")
 @*/
 
